@@ -33,14 +33,17 @@ where
     T: Hash + Eq + Clone + Ord + Display + Send + Sync,
     A: Clone + Send + Sync,
 {
-    let node_names_count = communities
+    // the distinct graph nodes named by the communities
+    let node_names: HashSet<&T> = communities
         .iter()
         .flatten()
         .filter(|n| graph.get_node((*n).clone()).is_some())
-        .count();
+        .collect();
     let sum_names = communities.iter().map(|hs| hs.len()).sum::<usize>();
     let all_nodes_len = graph.get_all_nodes().len();
-    node_names_count == all_nodes_len && sum_names == all_nodes_len
+    // every node is named, and (the sizes adding up to the number of nodes) named only once
+    // and nothing else is named
+    node_names.len() == all_nodes_len && sum_names == all_nodes_len
 }
 
 /**
